@@ -18,7 +18,7 @@ Local Arguments str_eqb : simpl never.
 (* the text of the heading *)
 Record head_ok (t : str) : Prop := {
   ho_line : line_ok t;
-  ho_strip : py_strip t = t;
+  ho_strip : strip_by is_space t = t;
   ho_last : exists c, nth_error t (length t - 1) = Some c /\ is_space c = false /\ c <> 35
 }.
 
@@ -163,8 +163,8 @@ Proof.
   { rewrite Hsrc. unfold s. pose proof (slice_app_mid [35] (32 :: t) [10]) as Q. cbn [app] in Q.
     change (len [35]) with 1 in Q. rewrite len_cons in Q. rewrite !len_cons. replace (1 + (1 + len t)) with (1 + (1 + len t)) by lia. exact Q. }
   rewrite SL.
-  assert (PS : py_strip (32 :: t) = t).
-  { destruct Ht as [_ ST _]. unfold py_strip, strip_by in *. cbn [lstrip_by]. change (is_py_space 32) with true. cbv iota. exact ST. }
+  assert (PS : strip_by is_space (32 :: t) = t).
+  { destruct Ht as [_ ST _]. unfold strip_by in *. cbn [lstrip_by]. change (is_space 32) with true. cbv iota. exact ST. }
   rewrite PS.
   eexists. split; [reflexivity|].
   unfold one_line, st_line, head_tokens. cbn. rewrite Hlv. cbn.
